@@ -115,6 +115,7 @@ func resumeThread(L *LState, th *LState, viaWrap bool) int {
 			th.initCallFrame(cf)
 		} else {
 			L.XMoveTo(th, nargs)
+			th.coverPendingResults()
 		}
 	})
 	return L.GetTop() - top
